@@ -250,6 +250,16 @@ struct Shadow {
     outstanding: BTreeMap<u64, u64>,
     /// challenges on which a handshake was accepted
     accepted: BTreeSet<u64>,
+    /// connection epochs: every handle_new_peer on an index starts a new epoch of that index
+    epoch: BTreeMap<u64, u64>,
+    /// challenges the node put on the wire for an index during the CURRENT epoch of that index
+    epoch_issued: BTreeMap<u64, Vec<u64>>,
+    /// keys K for which, during the CURRENT epoch of the index, a response was delivered on that index
+    /// whose signature verifies (real `verify`) under K over a challenge of `epoch_issued`:
+    /// key -> (challenge, step of the delivery)
+    epoch_proved: BTreeMap<u64, BTreeMap<u64, (u64, usize)>>,
+    /// (index, epoch, key) already reported by the epoch oracle
+    epoch_flagged: BTreeSet<(u64, u64, u64)>,
     /// response messages delivered so far: (bytes, model term)
     delivered: Vec<(Vec<u8>, String)>,
     fresh_ctr: u64,
@@ -664,6 +674,37 @@ impl<'a> Ctx<'a> {
             }
             _ => {}
         }
+        // connection epochs: a new-connection event starts a new epoch of that index; what was issued
+        // or proved on the previous connection of the index does not count for the new one
+        if let Real::New(c) = &real {
+            *self.sh.epoch.entry(*c).or_insert(0) += 1;
+            self.sh.epoch_issued.remove(c);
+            self.sh.epoch_proved.remove(c);
+            match self.sh.prev_peers.iter().find(|p| p.idx == *c).map(|p| p.status) {
+                Some(2) => {
+                    // the disconnect event of the previous connection was lost or is still under way
+                    self.tags.insert("reopen-while-connected");
+                }
+                Some(1) => {
+                    self.tags.insert("reopen-while-connecting");
+                }
+                _ => {}
+            }
+        }
+        // a delivered response proves key K for the current epoch of its index iff its signature
+        // verifies under K over a challenge the node issued on that index within this epoch
+        // (decided with the real `verify` from what the node put on the wire, not from its state)
+        if let Some((c, r)) = &resp_info {
+            let issued_now = self.sh.epoch_issued.get(c).cloned().unwrap_or_default();
+            for ch in issued_now.iter().rev() {
+                if verify(&self.sh.bytes_of(*ch), &r.signature, &r.public_key) {
+                    let kid = self.keys.id(&r.public_key);
+                    let at = self.expected.len();
+                    self.sh.epoch_proved.entry(*c).or_default().entry(kid).or_insert((*ch, at));
+                    break;
+                }
+            }
+        }
         let outstanding_before: BTreeMap<u64, u64> = self.sh.outstanding.clone();
 
         // ---- run the real code ----
@@ -729,6 +770,7 @@ impl<'a> Ctx<'a> {
                     let id = self.sh.intern(&ch.challenge);
                     self.sh.issued.entry(*c).or_default().push(id);
                     self.sh.outstanding.insert(*c, id);
+                    self.sh.epoch_issued.entry(*c).or_default().push(id);
                     rows.push(vec![300, *c, 1, id]);
                 }
                 Ok(Message::HandshakeResponse(r)) => {
@@ -751,6 +793,7 @@ impl<'a> Ctx<'a> {
                     if chid != 0 {
                         self.sh.issued.entry(*c).or_default().push(chid);
                         self.sh.outstanding.insert(*c, chid);
+                        self.sh.epoch_issued.entry(*c).or_default().push(chid);
                         }
                     let cv = vt(&r.core_version);
                     let wv = vt(&r.wallet_version);
@@ -824,6 +867,9 @@ impl<'a> Ctx<'a> {
 
         for c in &gone {
             self.sh.outstanding.remove(c);
+            // the entry is gone: nothing issued or proved on it counts for a later entry of that index
+            self.sh.epoch_issued.remove(c);
+            self.sh.epoch_proved.remove(c);
         }
         self.oracle(act, cur_conn, resp_info.as_ref(), &accepted_on, &peers, &addr, &gone, &outstanding_before);
         self.sh.prev_peers = peers;
@@ -989,6 +1035,46 @@ impl<'a> Ctx<'a> {
                     ));
                 }
             }
+        }
+        // --- (6) connection epochs: an entry that is Connected under key K in the current epoch of its
+        //         index (epoch = since the last new-connection event for that index) needs, WITHIN that
+        //         epoch, a challenge issued by this node on that index and a delivered response whose
+        //         signature verifies under K over that challenge. A connection never inherits the
+        //         authentication of the previous connection of its index. Checked on every entry after
+        //         every step (not only on status changes); reported once per (index, epoch, key). ---
+        for p in peers {
+            if p.status != 2 {
+                continue;
+            }
+            let key = match p.pk {
+                Some(key) => key,
+                None => continue, // reported by (2)
+            };
+            let e = self.sh.epoch.get(&p.idx).copied().unwrap_or(0);
+            let proved = self.sh.epoch_proved.get(&p.idx).map(|m| m.contains_key(&key)).unwrap_or(false);
+            if proved {
+                continue;
+            }
+            if !self.sh.epoch_flagged.insert((p.idx, e, key)) {
+                continue;
+            }
+            let issued_now = self.sh.epoch_issued.get(&p.idx).cloned().unwrap_or_default();
+            let mapped = addr.iter().find(|(kk, _)| *kk == key).map(|x| x.1);
+            let why = if e == 0 {
+                "no new-connection event was ever processed for this index".to_string()
+            } else if issued_now.is_empty() {
+                "the node has issued no challenge on this connection".to_string()
+            } else {
+                format!(
+                    "no response with a valid signature by key {} over a challenge issued on this connection (issued: {:?}) has been delivered on it",
+                    key, issued_now
+                )
+            };
+            self.failures.push(format!(
+                "step {} ({}): connection {} is Connected under key {} in connection epoch {} of that index (address_to_peers[{}] = {:?}), but {}: the entry carries the authentication of an earlier connection",
+                k, act.label(), p.idx, key, e, key, mapped, why
+            ));
+            self.tags.insert("epoch-violation");
         }
         if let Act::Purge = act {
             if !gone.is_empty() {
@@ -1203,6 +1289,32 @@ fn gen_random(rng: &mut Rng, len: usize) -> Vec<Act> {
             }
             acts.push(genuine(b, k));
             acts.push(Act::Resp { c: b, key: k, over: Val::Issued(a, 0), sig: SigKind::Valid, ver: VerKind::Same, echo: Val::Fresh });
+        }
+        // motif: a complete handshake, then a new-connection event for the SAME index without the
+        // disconnect event in between (lost or late), then traffic on the new connection: nothing,
+        // the old response again, a fresh challenge, a proper new handshake, the late disconnect
+        if rng.chance(1, 25) {
+            let a = conn(rng);
+            let k = *rng.pick(&[2u64, 2, 3, 4]);
+            acts.push(Act::New(a));
+            if a == 1 {
+                acts.push(Act::Chal { c: 1, x: Val::Fresh });
+            }
+            acts.push(genuine(a, k));
+            acts.push(Act::New(a));
+            for _ in 0..rng.below(4) {
+                let t = match rng.below(6) {
+                    // the response accepted on the previous connection (an incoming connection got a
+                    // new challenge at the re-open, so the old one is the second latest)
+                    0 => Act::Resp { c: a, key: k, over: Val::Issued(a, if a == 1 { 0 } else { 1 }), sig: SigKind::Valid, ver: VerKind::Same, echo: Val::Fresh },
+                    1 => Act::Replay { c: a, nth: rng.below(8) as usize },
+                    2 => Act::Chal { c: a, x: Val::Fresh },
+                    3 => genuine(a, k),
+                    4 => Act::Disc(a, rng.chance(1, 2)),
+                    _ => Act::New(a),
+                };
+                acts.push(t);
+            }
         }
     }
     acts
@@ -1443,6 +1555,40 @@ fn scripted() -> Vec<(&'static str, Vec<Act>)> {
         lim.push(genuine(2, HONEST));
         v.push(("limiter-window-boundary", lim));
     }
+    // a new-connection event for an index whose entry is still Connected (the disconnect event of the
+    // previous socket was lost, or arrives later): the entry must fall back to Connecting and the new
+    // connection has to authenticate itself; the old response, replayed, does not count for it
+    v.push((
+        "reopen-while-connected-incoming",
+        vec![
+            Act::New(2),
+            genuine(2, HONEST),
+            Act::New(2), // no Disc in between
+            Act::Replay { c: 2, nth: 0 },
+            Act::Resp { c: 2, key: HONEST, over: Val::Issued(2, 1), sig: SigKind::Valid, ver: VerKind::Same, echo: Val::Fresh },
+            Act::Chal { c: 2, x: Val::Fresh },
+            genuine(2, HONEST), // the proper handshake of the new connection
+            Act::New(2),
+            Act::Disc(2, true), // the late disconnect event of the previous socket
+        ],
+    ));
+    v.push((
+        "reopen-while-connected-static",
+        vec![
+            Act::New(1),
+            Act::Chal { c: 1, x: Val::Fresh },
+            genuine(1, HONEST),
+            Act::New(1), // no Disc in between
+            Act::Replay { c: 1, nth: 0 },
+            Act::New(3),
+            genuine(3, 4),
+            Act::New(3),
+            Act::Tick(1000),
+            Act::Purge,
+            Act::Chal { c: 1, x: Val::Fresh },
+            genuine(1, HONEST),
+        ],
+    ));
     // reconnection onto the static entry's key
     v.push((
         "static-reconnection",
